@@ -88,9 +88,11 @@ impl Serializer {
                 Entry::GroupComment(comment) => self.serialize_free_comment(comment, "##"),
                 Entry::ResourceComment(comment) => self.serialize_free_comment(comment, "###"),
                 Entry::Junk { content } => {
-                    if self.options.with_junk {
-                        self.serialize_junk(content.as_ref());
+                    if !self.options.with_junk {
+                        // nothing is written, so the separator state must not change
+                        continue;
                     }
+                    self.serialize_junk(content.as_ref());
                 }
             };
 
